@@ -151,7 +151,8 @@ static double backward_ratio(const Oracle &o, const float *c, size_t nt, bool &n
 	for (size_t a = 0; a < nt; a++) {
 		if (!std::isfinite(c[a])) { nanc = true; continue; }
 		LD g = -o.r[a], mag = fabsl(o.r[a]);
-		for (size_t b = 0; b < nt; b++) { if (o.H[a * nt + b] == 0) continue; g += o.H[a * nt + b] * c[b]; mag += fabsl(o.H[a * nt + b] * c[b]); }
+		// (a float carries 2^-24 relative precision only down to FLT_MIN; below it - and a coefficient that underflows to zero - the error is absolute, half a subnormal step)
+		for (size_t b = 0; b < nt; b++) { if (o.H[a * nt + b] == 0) continue; g += o.H[a * nt + b] * c[b]; mag += fabsl(o.H[a * nt + b]) * std::max((LD)fabsl((LD)c[b]), (LD)1.17549435e-38L); }
 		if (mag > 0) { double q = (double)(fabsl(g) / (ldexpl(1, -24) * mag)); if (q > ratio) { ratio = q; worst_i = a; } }
 	}
 	return ratio;
@@ -208,7 +209,7 @@ static void run_C09big(const Args &a, long cs) {
 	// per-dimension basis matrices (grid x coefficients) and their absolute values
 	std::vector<std::vector<LD>> B(p.nd), Bt(p.nd);
 	for (int d = 0; d < p.nd; d++) { B[d].assign(gd[d] * cd[d], 0); Bt[d].assign(cd[d] * gd[d], 0); for (size_t q = 0; q < gd[d]; q++) for (size_t i = 0; i < cd[d]; i++) { LD v = Bh(p.kn[d], (int)i, p.ord[d], p.co[d][q]); B[d][q * cd[d] + i] = v; Bt[d][i * gd[d] + q] = v; } }
-	std::vector<LD> c(p.ntot), ca(p.ntot); for (size_t i = 0; i < p.ntot; i++) { c[i] = cf[i]; ca[i] = fabsl(c[i]); }
+	std::vector<LD> c(p.ntot), ca(p.ntot); for (size_t i = 0; i < p.ntot; i++) { c[i] = cf[i]; ca[i] = std::max((LD)fabsl(c[i]), (LD)1.17549435e-38L); /* (below FLT_MIN the precision of a float is absolute) */ }
 	auto chain = [&](const std::vector<std::vector<LD>> &Ms, const std::vector<size_t> &rows, const std::vector<size_t> &cols, std::vector<LD> v, std::vector<size_t> dims) { for (int d = 0; d < p.nd; d++) { std::vector<LD> o2; std::vector<size_t> od; mode_apply(Ms[d], rows[d], cols[d], v, dims, d, o2, od); v.swap(o2); dims = od; } return v; };
 	std::vector<LD> yh = chain(B, gd, cd, c, cd), yha = chain(B, gd, cd, ca, cd); // basis values are non-negative: |B| = B
 	std::vector<LD> res(npt), resa(npt); for (size_t i = 0; i < npt; i++) { res[i] = w[i] * (y[i] - yh[i]); resa[i] = w[i] * (fabsl(y[i]) + yha[i]); }
@@ -276,6 +277,11 @@ static void run_C09(const Args &a, long cs) {
 		if (ok) {
 			bool nanc; size_t wi; double ratio = backward_ratio(o, c, p.ntot, nanc, wi);
 			count(std::string("fits:") + vn[variant]); distinct(hash_mix(h, variant));
+			if (a.verbose && ratio > K_BOUND) {
+				fprintf(stderr, "C09 case %ld variant %s: ratio %g at component %zu\n", cs, vn[variant], ratio, wi);
+				for (int d = 0; d < p.nd; d++) { fprintf(stderr, " dim %d order %u penaltyOrder %u lambda %g knots:", d, p.ord[d], p.por[d], p.lam[d]); for (double k : p.kn[d]) fprintf(stderr, " %.17g", k); fprintf(stderr, "\n  abscissae:"); for (double x : p.co[d]) fprintf(stderr, " %.17g", x); fprintf(stderr, "\n"); }
+				fprintf(stderr, " coefficients:"); for (size_t i = 0; i < p.ntot; i++) fprintf(stderr, " %g", c[i]); fprintf(stderr, "\n r:"); for (size_t i = 0; i < p.ntot; i++) fprintf(stderr, " %g", (double)o.r[i]); fprintf(stderr, "\n");
+			}
 			if (nanc) viol(std::string("C09:") + vn[variant] + ":non-finite-coefficients-on-well-posed-problem", prob_brief(p));
 			else if (ratio > K_BOUND) viol(std::string("C09:") + vn[variant] + ":normal-equation-residual-above-bound", "{\"ratio_to_2^-24(|H||c|+|r|)\":" + jnum(ratio) + ",\"bound\":" + jnum(K_BOUND) + ",\"component\":" + std::to_string(wi) + ",\"problem\":" + prob_brief(p) + "}");
 			else { count(ratio < 0.5 ? "residual-ratio<0.5" : ratio < 2 ? "residual-ratio<2" : "residual-ratio<8"); }
